@@ -3,6 +3,7 @@
 package engine
 
 import (
+	"time"
 	"fmt"
 	"os"
 	"reflect"
@@ -40,6 +41,7 @@ type Opts struct {
 	Delay     bool // P bounds every non-default scheduling choice (delay bounding), not only preemptions
 	Unbounded bool // explore everything, pruned by happens-before state caching
 	MaxExecs  int  // safety cap (0 = none); hitting it clears Exhaustive
+	Until     time.Time // safety cap on wall time (zero = none); passing it clears Exhaustive
 }
 
 // Stats is what an exploration covered.
@@ -93,7 +95,7 @@ func (e *Explorer) run(prefix []int) (*zzvs.Result, string) {
 // accounting the execution itself. With the cache on, a subtree whose root state was seen is dropped.
 func (e *Explorer) Children(prefix []int) [][]int {
 	st := e.St
-	if e.Opt.MaxExecs > 0 && st.Execs >= e.Opt.MaxExecs {
+	if (e.Opt.MaxExecs > 0 && st.Execs >= e.Opt.MaxExecs) || (!e.Opt.Until.IsZero() && st.Execs%64 == 0 && time.Now().After(e.Opt.Until)) {
 		st.Capped = true
 		return nil
 	}
